@@ -74,6 +74,12 @@ pub fn drivers_for(h: &HirSpec, cfg: &Cfg, pkg: &str) -> Vec<Driver> {
     let svc = crate::eoracle::cfg_name(cfg);
     let client = format!("{}Client", svc).as_str().to_rust_struct().0;
     let mut out = vec![];
+    {
+        let mut files = std::collections::BTreeSet::new();
+        if !h.operations.iter().all(|o| files.insert(o.file_name())) {
+            return out; // two operations share a module (open finding): the crate does not build, nothing to execute
+        }
+    }
     for (oi, o) in h.operations.iter().enumerate() {
         if !o.parameters.iter().all(|p| eligible(&p.ty)) {
             continue;
@@ -187,4 +193,40 @@ pub fn crate_expectations(spec: &Spec, cfg: &Cfg) -> serde_json::Value {
         }
     }
     serde_json::json!({"server": server, "auth": auth_kind, "credentials": creds, "n_servers": spec.servers.len()})
+}
+
+/// the property names the document declares for an operation's JSON body (None: the body is not an object with
+/// properties — an array, a free-form object, no body)
+pub fn declared_body_props(spec: &Spec, op: &Op) -> Option<Vec<String>> {
+    fn walk(spec: &Spec, r: &SRef, depth: usize, out: &mut Vec<String>) -> bool {
+        if depth == 0 {
+            return false;
+        }
+        let s = match r {
+            SRef::Ref(n) => match spec.components.iter().find(|(k, _)| k == n) {
+                Some((_, s)) => s,
+                None => return false,
+            },
+            SRef::Inl(s) => s,
+        };
+        match &s.kind {
+            Kind::Object { props, .. } if !props.is_empty() => {
+                out.extend(props.iter().map(|(k, _)| k.clone()));
+                true
+            }
+            Kind::AllOf(l) => {
+                let mut any = false;
+                for m in l {
+                    any |= walk(spec, m, depth - 1, out);
+                }
+                any
+            }
+            _ => false,
+        }
+    }
+    let mut out = vec![];
+    match &op.body {
+        Some(r) if walk(spec, r, 8, &mut out) => Some(out),
+        _ => None,
+    }
 }
